@@ -54,10 +54,21 @@ DESCR = {
               'future trigger in the graph and a stop point earlier than the final point'),
     'S-C45': ('task_pool.py spawn_on_output: absolute_outputs table stores the output label instead of the message',
               'absolute trigger on a custom output, restart after it completed, dependents spawned after the restart'),
+    'S-C07': ('task_pool.py compute_runahead: stop-point clamp tests the limit before the future offset is added',
+              'future trigger + stop point earlier than the final point + a limit that jumps over the stop point'),
+    'S-C08': ('flow_mgr.py load_from_db: new-flow counter from the flows still in the pool',
+              'a commanded flow has finished, then a restart, then --flow=new'),
+    'S-C42': ('subprocpool.py process(): `continue` dropped after killing a timed-out command',
+              'a pooled command still running when the process pool timeout expires'),
+    'S-C46': ('task_pool.py spawn_next_parentless: cutoff is the initial point instead of the start point',
+              'warm start (or start tasks) + an inter-cycle offset spanning more than one step of the recurrence'),
+    'S-C48': ('clean.py clean(): runN tidy-up no longer guarded by "run dir no longer exists"',
+              'targeted clean (--rm DIR) of the run that runN points at'),
     'S-C31': ('cycling/integer.py get_nearest_prev_point reduced to get_prev_point',
               'sequential task on a finite recurrence followed after a gap by another recurrence'),
 }
 NOTES = {
+    'S-C48': 'first missed: the install/clean histories had no targeted clean; operation and two rules added',
     'S-C10': 'first caught only by C09 (illegal transition); C10 got an independent rule (a received message for an earlier stage must not move the status back)',
     'S-C11': 'caught by C29 (the set command is what makes the task complete); the C11 workload has no operator commands',
     'S-C25': 'first missed: C25 generated no absolute triggers; enabled',
